@@ -4,6 +4,7 @@ import hashlib
 import json
 import multiprocessing
 import os
+import re
 import shutil
 import signal
 import subprocess
@@ -86,9 +87,12 @@ def _record_cases(exe, cases, env, args, tag):
             return
         keep, n = [], 0
         step = max(1, len(cases) // 400)
+        skip = re.compile(os.environ["VF_RECORD_SKIP"]) if os.environ.get("VF_RECORD_SKIP") else None
         for cid, cmds in cases[::step]:
             if sum(len(c) for c in cmds) > 200000:
                 continue
+            if skip and any(skip.search(c) for c in cmds):
+                continue  # e.g. must-fail requests for multi-gigabyte blocks: without ASan's allocation cap the uninstrumented build would really try
             if n + len(cmds) > budget:
                 break
             keep.append((cid, cmds))
